@@ -23,7 +23,10 @@ PROPS = {
         level_text="Store operations are pure functions on a directory map following store.go / userhash.go branch by "
                    "branch; write-then-authenticate (verdict = digest equality with the last written password, via the "
                    "proved record and base64 round trips), frame theorems for every other user, set-admin / remove "
-                   "behaviour and the PBKDF2-HMAC key equivalence are Lean theorems; every step of generated histories "
+                   "behaviour and the PBKDF2-HMAC key equivalence are Lean theorems; verdict_is_function_of_last_write: after ANY "
+                   "history of successful and failed operations from a state without the user, authentication answers "
+                   "exactly according to the most recent acknowledged add / update that no later removal erased "
+                   "(induction over the history with the invariant Agrees); every step of generated histories "
                    "on a real store.Dir is compared with the model (pre-snapshot, operation, post-snapshot, verdicts) and "
                    "with the harness's own sequential specification.",
         rule="Histories of 10-35 (thorough: 20-140) add/update/set-admin/remove/config-change operations over 1-5 users "
